@@ -204,6 +204,43 @@ def r2_to_r6_reapers(ctx):
         ctx.ob("R12.2", "siblings:same-decision-skeleton", ok, "", "both reaper copies test closed / fresh / below-minimum in the same way" if ok else "the two reaper copies disagree on their decision tests: %s vs %s" % (shape(a), shape(b)))
 
 
+def r7_reaper_cannot_die(ctx):
+    """housekeeping is a single long-lived task: an unchecked `a - b` on unsigned sizes (subtraction with overflow check, or a
+    wrapping one feeding an allocation) ends it silently for the life of the pool"""
+    n_arith = 0
+    for name, body in _reapers(ctx):
+        cfg, conds, o = ctx.cfg(body), ctx.conds(body), ctx.origins(body)
+        for bi in sorted(body.reachable()):
+            for st in body.blocks[bi]["stmts"]:
+                if st["s"] != "assign" or st["rv"]["r"] != "binop":
+                    continue
+                op = st["rv"]["op"]
+                if op in ("AddWithOverflow", "Add", "AddUnchecked"):
+                    n_arith += 1
+                if op not in ("SubWithOverflow", "Sub"):
+                    continue
+                if st["span"].get("macros"):
+                    continue
+                n_arith += 1
+                a = o.of_operand(st["rv"]["a"])
+                b = o.of_operand(st["rv"]["b"])
+                # guarded by the false edge of `a < b` (canonical) / true edge of `b <= a`
+                guarded = False
+                for c in conds.all():
+                    t = c.term
+                    if c.kind == "bool" and isinstance(t, tuple) and t[0] == "binop":
+                        if t[1] == "Lt" and strip_bb(t[2]) == strip_bb(a) and strip_bb(t[3]) == strip_bb(b) and cfg.edges_dominate(c.edges_for(False), bi):
+                            guarded = True
+                        if t[1] == "Le" and strip_bb(t[2]) == strip_bb(b) and strip_bb(t[3]) == strip_bb(a) and cfg.edges_dominate(c.edges_for(True), bi):
+                            guarded = True
+                ctx.ob("R12.7", "%s:unsigned-subtraction-guarded" % name, guarded, "src/client/session_pool.rs:%s" % st["span"]["line"],
+                       "`%s - %s` is dominated by a comparison that excludes underflow" % (fmt(a)[:30], fmt(b)[:30]) if guarded else
+                       "the reaper computes `%s - %s` on unsigned sizes with no dominating guard: when the pool holds fewer sessions than the subtrahend the task panics (or requests an absurd allocation) and the "
+                       "periodic reaper is gone for the life of the pool — surplus sessions are never closed and dead ones never purged" % (fmt(a)[:40], fmt(b)[:40]))
+    ctx.floor("R12.7", "arithmetic statements seen in the reapers (matcher self-check)", n_arith, 2)
+
+
 def run(ctx):
+    r7_reaper_cannot_die(ctx)
     r1_entry_points(ctx)
     r2_to_r6_reapers(ctx)
